@@ -215,6 +215,65 @@ def case_explog_batch(H, g, sa):
                 key='C06/batch/Exp', timeout=15)
 
 
+def case_jinvp_batch(H, g):
+    """Jinvp on a batch of two symbolic elements in possibly DIFFERENT regimes (zero / tiny / generic rotation; mask arithmetic and
+    whole-batch shortcuts inside the Jacobian helpers): batched == item by item, and finite"""
+    name = 'C06/batch/%s/Jinvp/(2,)' % g
+
+    def scenario(X, p):
+        full = X.Jinvp(p).tensor()
+        items = [X[k].Jinvp(p[k]).tensor() for k in range(2)]
+        return full, items
+
+    def prog(m):
+        X = rand_group(g, 61, shape=(2,))
+        xs = m.symbolic(X, 'x')
+        for k in range(2):
+            m.ctx.assume += valid(g, xs[GDIM[g] * k:GDIM[g] * (k + 1)])
+        pt = torch.randn(2, ADIM[g], dtype=DT)
+        m.symbolic(pt, 'p')
+        full, items = scenario(X, pp.LieTensor(pt, ltype=ATYPE[g]))
+        return m.full_terms(full), [t_ for it in items for t_ in m.full_terms(it)], m.poisons(full)
+
+    def replay(model):
+        worst, wx = 0.0, None
+        xv = tensor_from_env(['x%d' % i for i in range(2 * GDIM[g])], model).view(2, GDIM[g])
+        pv = tensor_from_env(['p%d' % i for i in range(2 * ADIM[g])], model).view(2, ADIM[g])
+        if float(pv.abs().sum()) == 0:
+            pv = torch.randn(2, ADIM[g], dtype=DT)
+        qi = {'SO3': 0, 'SE3': 3, 'RxSO3': 0, 'Sim3': 3}[g]
+        ident = rand_group(g, 61).tensor() * 0
+        ident[qi + 3] = 1.0
+        if g in ('RxSO3', 'Sim3'):
+            ident[-1] = 1.0
+        cands = [torch.stack([normalize_group(g, xv[0]) if xv[0].abs().sum() > 0 else ident, normalize_group(g, xv[1]) if xv[1].abs().sum() > 0 else ident])]
+        # the same elements with one of them replaced by an exactly-zero rotation (the regime the solver's point only approximates)
+        for k in range(2):
+            c = cands[0].clone()
+            c[k, qi:qi + 3] = 0.0
+            c[k, qi + 3] = 1.0
+            cands.append(c)
+        for c in cands:
+            full, items = scenario(pp.LieTensor(c, ltype=GTYPE[g]), pp.LieTensor(pv, ltype=ATYPE[g]))
+            ref = torch.stack(items)
+            if not torch.isfinite(full).all():
+                return True, 'batched Jinvp is not finite for the batch %s (item-by-item finite: %s)' % (c.tolist(), bool(torch.isfinite(ref).all()))
+            e = (full - ref).abs().max().item()
+            if e > worst:
+                worst, wx = e, c.tolist()
+        return worst > 1e-9, 'batched Jinvp differs from item-by-item Jinvp by %.3g on the batch %s' % (worst, wx)
+
+    for ctx, (full, items, pf) in run_paths(H, name, prog, max_paths=(32 if g != 'Sim3' else 96), max_decisions=60, track_poison=True):
+        hyp = H.hyps_of(ctx, pairs=False)
+        pn = H.paths
+        H.prove('%s/path%d/same-length' % (name, pn), [], z3.BoolVal(len(full) == len(items)), replay=replay, key='C06/batch/Jinvp')
+        for i, (l, r) in enumerate(zip(full, items)):
+            H.same('%s/path%d/item[%d]' % (name, pn, i), hyp, l, r, ctx, replay=replay, key='C06/batch/Jinvp', timeout=15)
+        ps = [p_ for p_ in pf if p_ is not None]
+        if ps:
+            H.prove('%s/path%d/finite' % (name, pn), list(ctx.assume) + list(ctx.pc), z3.Not(z3.Or(ps)), replay=replay, key='C06/batch/Jinvp', timeout=15)
+
+
 # ------------------------------------------------------------------------------------------------ shape-only functions
 def shape_functions():
     """(name, callable on a tensor/LieTensor of shape (2,3,D)) - functions of HANDLED_FUNCTIONS that keep the last dimension"""
@@ -470,6 +529,12 @@ def run(H):
             case_explog_batch(H, g, sa)
         except Exception as e:
             H.engine_error('explog', e)
+    for g in (['SE3'] if H.quick else ['SO3', 'SE3', 'RxSO3']):
+        try:
+            case_jinvp_batch(H, g)
+        except Exception as e:
+            import traceback; traceback.print_exc()
+            H.engine_error('jinvp-batch', e)
     for g in (['SE3'] if H.quick else GROUPS):
         try:
             case_shape_functions(H, g)
